@@ -455,7 +455,10 @@ CHECKS = {
                    "cycle or about to start one, and no connected peer claims more than the node has, so the syncer's tick cannot "
                    "start a cycle; for fetcher entry points: no fetcher loop); every other wait that exceeds 20 s stays "
                    "inconclusive (0 in the last 30k sessions). TestC15AfterSync generates the histories the rule needs: sync "
-                   "completed / failed / none / deliveries during a cycle, then unsolicited hash and momentum deliveries. Not built "
+                   "completed / failed / none / deliveries during a cycle, then unsolicited hash and momentum deliveries. "
+                   "TestC15ThirdPeer: while the answer of the honest sync peer A to a hash request (ancestor lookup / hash download, "
+                   "read off the node's requests) is held back, a second connection delivers unsolicited hash lists; at rest A "
+                   "must still be connected and the node at A's tip with a reference follower's state. Not built "
                    "with -race (the detector reports a node-internal race in discover.Table on Close which is outside the listed "
                    "properties).",
         technique="session-level stateful property testing (rapid) with reply-size and survival oracles; byte-level mutation testing of "
@@ -470,6 +473,7 @@ CHECKS = {
         death_is_violation=True,
         jobs=[dict(test="TestC15Session", pkg="p15", quick=T(8, 350), thorough=T(12, 3000, 0, 3000)),
               dict(test="TestC15AfterSync", pkg="p15", quick=T(4, 120), thorough=T(8, 2500, 0, 3000)),
+              dict(test="TestC15ThirdPeer", pkg="p15", quick=T(3, 100), thorough=T(6, 3000, 0, 3000)),
               dict(test="TestC15Frames", pkg="p15", quick=T(2, 8000), thorough=T(4, 250000, 0, 3000)),
               dict(test="TestC15Discovery", pkg="p15", quick=T(2, 3000), thorough=T(4, 40000, 0, 3000)),
               dict(test="TestC15Handshake", pkg="p15", quick=T(1, 2500), thorough=T(2, 30000, 0, 3000)),
